@@ -694,6 +694,15 @@ def _violation(res, fn, cfg, opts, solver, p, label, env, detail,
             used_env = Bc.env if 'Bc' in dir() else cand
             outcome = f[1]
             break
+    if not confirmed and env is None and opts.get('facts_final') and (
+            detail.startswith('fact failed') or
+            detail.startswith('condition is concretely false')):
+        # a structural fact established while running the real chi code on
+        # symbolic data (term inspection, labels, shapes): not a solver model,
+        # nothing to replay on floats
+        confirmed = True
+        outcome = 'structural fact observed on the symbolic run of the ' \
+            'real code: ' + detail
     entry = dict(label=label, detail=detail, confirmed=confirmed,
                  outcome=outcome, env=used_env or (candidates[0] if candidates
                                                   else None),
